@@ -127,3 +127,153 @@ def native_check(name, desc, inputs):
 
 
 NATIVE = {'unary': native_unary}
+
+
+# ----------------------------------------------------------------------------- SparseLogicalVector kernels (sets of true positions)
+
+LOGICAL_INPLACE = {'iand': lambda a, b: z3.And(a, b), 'ior': lambda a, b: z3.Or(a, b), 'ixor': lambda a, b: z3.Xor(a, b)}
+LOGICAL_CMP = {'eq': lambda a, b: a == b, 'ne': lambda a, b: a != b, 'gt': lambda a, b: z3.And(a, z3.Not(b)),
+               'lt': lambda a, b: z3.And(z3.Not(a), b), 'ge': lambda a, b: z3.Or(a, z3.Not(b)), 'le': lambda a, b: z3.Or(z3.Not(a), b)}
+for _op in LOGICAL_INPLACE:
+    for _kind in ('scalar', 'sparse', 'array'):
+        TABLE.append((f'_{_op}_{_kind}', ('more', 'logical', _op, _kind, 'SparseLogicalVector')))
+for _op in LOGICAL_CMP:
+    TABLE.append((f'_{_op}_sparse', ('more', 'logical', _op, 'sparse', 'SparseLogicalVector')))
+TABLE.append(('__invert__', ('more', 'logical', 'invert', 'none', 'SparseLogicalVector')))
+
+
+class LPre(K.Pre):
+    def lvec(self, name):
+        dom = z3.Const(f'set_{name}', z3.ArraySort(I, B))
+        size = z3.Int(f'size_{name}')
+        st = self.heap.new_set(dom)
+        sv = self.heap.new_sv(st, size, cls='SparseLogicalVector')
+        self.vecs[name] = dict(dom=dom, val=None, size=size, ref=sv, dict=st, read_only=z3.BoolVal(False))
+        self.facts.append(size >= 0)
+        self.env[name] = sv
+        return sv
+
+    def rep_ok(self, name, t):
+        v = self.vecs[name]
+        return z3.Implies(z3.Select(v['dom'], t), z3.And(t >= 0, t < v['size']))
+
+
+def spec_logical(op, kind, cls):
+    inplace = op in LOGICAL_INPLACE
+
+    def build():
+        p = LPre('logical')
+        p.lvec('self')
+        if kind == 'sparse':
+            p.lvec('other'); p.osize = p.vecs['other']['size']
+            p.oget = lambda k: z3.Select(p.vecs['other']['dom'], k)
+        elif kind == 'array':
+            n = z3.Int('len_other'); vals = z3.Const('vals_other', z3.ArraySort(I, R))
+            p.env['other'] = Arr(n, vals); p.facts.append(n >= 0); p.osize = n
+            p.oget = lambda k: z3.Select(vals, k) != 0
+        elif kind == 'scalar':
+            b = z3.Bool('other'); p.env['other'] = b; p.osize = None
+            p.oget = lambda k: b
+        return p
+
+    def shape(p):
+        size = p.vecs['self']['size']
+        if kind in ('scalar', 'none'):
+            return size, z3.BoolVal(True), (lambda k: k), (lambda k: k)
+        osize = p.osize
+        same = size == osize
+        selfb = z3.And(size == 1, osize != 0)
+        otherb = (osize == 1) if kind == 'sparse' else z3.BoolVal(False)
+        ok = z3.Or(same, selfb, otherb)
+        n = z3.If(same, size, z3.If(selfb, osize, size))
+        ai = lambda k: z3.If(z3.And(z3.Not(same), selfb), z3.IntVal(0), k)
+        bi = lambda k: z3.If(z3.And(z3.Not(same), z3.Not(selfb), otherb), z3.IntVal(0), k)
+        return n, ok, ai, bi
+
+    def requires(p, terms):
+        fs = list(p.facts)
+        for t in terms:
+            fs.append(p.rep_ok('self', t))
+            if kind == 'sparse': fs.append(p.rep_ok('other', t))
+        return fs
+
+    def raises_allowed(p):
+        n, ok, ai, bi = shape(p)
+        return {'ValueError': z3.Not(ok)}
+
+    def ensures(p, out, k):
+        n, ok, ai, bi = shape(p)
+        s = p.vecs['self']
+        res = out.value
+        cl = []
+        if not isinstance(res, SLV):
+            return [('returns a SparseLogicalVector', z3.BoolVal(False))]
+        f = out.heap.objs[res.oid]
+        rset = out.heap.sets[f['dct'].oid]
+        a = z3.Select(s['dom'], ai(k))
+        if op == 'invert':
+            expect = z3.Not(a)
+        else:
+            b = p.oget(bi(k))
+            expect = (LOGICAL_INPLACE.get(op) or LOGICAL_CMP[op])(a, b)
+        if inplace:
+            cl.append(('returns self', z3.BoolVal(res.oid == s['ref'].oid)))
+        else:
+            cl.append(('returns a new object', z3.BoolVal(res.oid != s['ref'].oid and f['dct'].oid != s['dict'].oid)))
+            sset = out.heap.sets[s['dict'].oid]
+            cl.append(('frame: self unchanged', z3.And(z3.Select(sset, k) == z3.Select(s['dom'], k),
+                                                       out.heap.objs[s['ref'].oid]['size'] == s['size'])))
+        cl.append(('shape accepted', ok))
+        cl.append(('result size = broadcast size', f['size'] == n))
+        cl.append(('member k <=> logical operator on the dense images', z3.Implies(z3.And(k >= 0, k < n), z3.Select(rset, k) == expect)))
+        cl.append(('stored indices inside the size', z3.Implies(z3.Select(rset, k), z3.And(k >= 0, k < n))))
+        if kind == 'sparse':
+            o = p.vecs['other']
+            oset = out.heap.sets[o['dict'].oid]
+            cl.append(('frame: other operand unchanged', z3.And(z3.Select(oset, k) == z3.Select(o['dom'], k),
+                                                                out.heap.objs[o['ref'].oid]['size'] == o['size'])))
+        return cl
+
+    return dict(build=build, requires=requires, raises_allowed=raises_allowed, ensures=ensures)
+
+
+SPECS['logical'] = spec_logical
+
+
+def native_logical(name, desc, inputs):
+    import numpy as np, sys
+    sp = sys.modules['thermosteam.base.sparse']
+    _, _, op, kind, cls = desc
+    s = inputs['self']
+    a = sp.SparseLogicalVector.from_set(set(int(k) for k in s['set']), s['size'])
+    a0 = a.to_array().copy()
+    args = []
+    if kind == 'sparse':
+        o = inputs['other']; b = sp.SparseLogicalVector.from_set(set(int(k) for k in o['set']), o['size']); b0 = b.to_array().copy(); args = [b]
+    elif kind == 'array':
+        b0 = np.array(inputs['other']['array'], dtype=float) != 0; args = [b0.copy()]
+    elif kind == 'scalar':
+        b0 = bool(inputs['other']['scalar']); args = [b0]
+    npf = {'iand': np.logical_and, 'ior': np.logical_or, 'ixor': np.logical_xor, 'eq': np.equal, 'ne': np.not_equal, 'gt': np.greater,
+           'lt': np.less, 'ge': np.greater_equal, 'le': np.less_equal}
+    try:
+        r = getattr(a, name)(*args)
+    except ValueError as e:
+        sa, sb = len(a0), (np.size(b0) if kind in ('sparse', 'array') else None)
+        ok = kind in ('scalar', 'none') or sa == sb or (sa == 1 and sb != 0) or (kind == 'sparse' and sb == 1)
+        return [f'unexpected ValueError: {e}'] if ok else []
+    except Exception as e:
+        return [f'unexpected {type(e).__name__}: {e}']
+    try:
+        expect = np.logical_not(a0) if op == 'invert' else npf[op](a0, b0)
+    except ValueError:
+        return ['shape mismatch not rejected']
+    got = r.to_array()
+    failed = []
+    if got.shape != np.shape(expect) or not np.array_equal(got, expect):
+        failed.append(f'member k <=> logical operator on the dense images (got {got.tolist()}, NumPy {np.asarray(expect).tolist()})')
+    if any(not (0 <= k < r.size) for k in r.set): failed.append('stored indices inside the size')
+    return failed
+
+
+NATIVE['logical'] = native_logical
